@@ -24,8 +24,8 @@
 (*      the incremental mean is kept because +Inf inputs take it.          *)
 (*                                                                         *)
 (* TLC checks on every explored case that (2) computes what (1) demands    *)
-(* (invariant ImplMatchesRef), except for the named deviations KF_C29_1    *)
-(* and KF_C29_2 below, and checks algebraic laws of the reference.         *)
+(* (invariant ImplMatchesRef), except for the named deviation KF_C29_2     *)
+(* below, and checks algebraic laws of the reference.                      *)
 (* Every finished case is emitted ("@@TR" line) with the result the        *)
 (* reference predicts; the Go harness loads the vectors into a real TSDB,  *)
 (* evaluates the printed query on a real promql.Engine and compares.       *)
@@ -420,8 +420,10 @@ Ref(e, l, r) == CASE e.k = "agg" -> RefAgg(e, l)
 -----------------------------------------------------------------------------
 (* Named deviations of the code from the documentation (known findings).     *)
 
-\* KF-C29-1: quantile() computes v[lo]*(1-w) + v[hi]*w even when w = 0; with v[hi] infinite the
-\* zero-weight term is 0*Inf = NaN although the rank is an integer and the answer is v[lo].
+\* quantile() of promql/quantile.go as transcribed: since the fix of KF-C29-1 (commit 9f9c388878) it returns
+\* v[lo] when the weight is 0 instead of adding the zero-weight term v[hi]*0 (= NaN for an infinite v[hi]).
+\* The transcription is kept separate from RefQuantile; ImplMatchesRef demands that they agree, and the
+\* replay fails with a plain violation if the real code computes 0*Inf again.
 ImplQuantile(phi, s) ==
   IF Len(s) = 0 \/ IsNaN(phi) THEN NaN
   ELSE IF XLt(phi, I(0)) THEN NInf
@@ -432,10 +434,8 @@ ImplQuantile(phi, s) ==
            lo   == rank.n \div rank.d
            hi   == IF lo + 1 > n - 1 THEN n - 1 ELSE lo + 1
            w    == XSub(rank, I(lo))
-       IN XAdd(XMul(v[lo + 1], XSub(I(1), w)), XMul(v[hi + 1], w))
-KF_C29_1(e, l) == /\ e.k = "agg" /\ e.op = "quantile"
-                  /\ \E g \in GroupsOf(e, l) : LET s == ValsOf(l, Members(e, l, g))
-                                               IN ImplQuantile(e.par, s) # RefQuantile(e.par, s)
+       IN IF w = I(0) THEN v[lo + 1]
+          ELSE XAdd(XMul(v[lo + 1], XSub(I(1), w)), XMul(v[hi + 1], w))
 
 \* KF-C29-2: VectorBinop swaps the sides for group_right but keeps using FillValues.RHS for the
 \* (swapped) left loop and FillValues.LHS for the right loop: fill_left / fill_right act on the
@@ -708,7 +708,6 @@ ImplMatchesRef ==
   Finished =>
     \/ q.k = "agg" /\ q.op \in {"topk", "bottomk", "limitk"}       \* evaluated by the reference itself
     \/ (Impl.err = RefRes.err /\ Impl.v = RefRes.v)
-    \/ KF_C29_1(q, L)
     \/ KF_C29_2(q)
 
 \* the deviations are real: each one changes some result in the explored space (checked by the
@@ -783,7 +782,7 @@ KGJson(kg) == LET sq == SetToSeq(kg) IN
 ExprJson(e) == [e EXCEPT !.grp = SetToSeq(e.grp), !.ml = SetToSeq(e.ml), !.inc = SetToSeq(e.inc)]
 Case ==
   LET r  == RefRes
-      kf == IF KF_C29_1(q, L) THEN "KF-C29-1" ELSE IF KF_C29_2(q) /\ Deviates THEN "KF-C29-2" ELSE ""
+      kf == IF KF_C29_2(q) /\ Deviates THEN "KF-C29-2" ELSE ""
   IN [l |-> VecJson(L), r |-> VecJson(R), q |-> ExprJson(q),
       out |-> [err |-> r.err, v |-> VecJson(r.v), kg |-> KGJson(r.kg),
                sq |-> (q.op = "stddev"),
